@@ -286,7 +286,7 @@ func checkWire(dir string, tap []byte) (int, *sim.Violation) {
 			return n, &v
 		}
 		rest, _ := readAll(dec)
-		if len(bytes.TrimSpace(rest)) != 0 {
+		if len(trimJSONSpace(rest)) != 0 {
 			v := vio("framing", "message-not-json "+dir, "%s: message %d has trailing bytes after the JSON value: %s", dir, n, abbreviate(string(chunk), 120))
 			return n, &v
 		}
